@@ -56,6 +56,8 @@ static int s_norm_marks_c(void) { norm_src(2); mk(100 * 4); DW = 4; rsize_t l = 
 static int s_norm_nospc(void)   { norm_src(1); mk(8 * 4); DW = 4; rsize_t l = 0; errno_t r; LIBCALL(r = _wcsnorm_s_chk((wchar_t *)D, 8, NSRC, WCSNORM_NFC, &l, 32)); return r != EOK; }
 static int s_wcsicmp(void)      { D = NULL; DMAXB = 0; int res = 0; errno_t r; wchar_t *a = place_end(0, 8 * 4), *b = place_end(1, 8 * 4); wcscpy(a, L"Straße"); wcscpy(b, L"STRASSE"); LIBCALL(r = _wcsicmp_s_chk(a, 8, b, 8, &res, 32, 32)); return r != EOK; }
 static int s_wcsicmp_bad(void)  { D = NULL; DMAXB = 0; int res = 0; errno_t r; wchar_t *a = place_end(0, 4 * 4), *b = place_end(1, 4 * 4); a[0] = L'a'; a[1] = 0x110000 + 5; a[2] = 0; b[0] = L'a'; b[1] = 0; LIBCALL(r = _wcsicmp_s_chk(a, 4, b, 4, &res, 16, 16)); return r != EOK; }
+static int s_wcsnatcmp(void)    { D = NULL; DMAXB = 0; int res = 0; errno_t r; wchar_t *a = place_end(0, 8 * 4), *b = place_end(1, 8 * 4); wcscpy(a, L"File12"); wcscpy(b, L"fILE2"); LIBCALL(r = _wcsnatcmp_s_chk(a, 8, b, 8, 1, &res, 32, 32)); return r != EOK; }
+static int s_wcsnatcmp_bad2(void) { D = NULL; DMAXB = 0; int res = 0; errno_t r; wchar_t *a = place_end(0, 4 * 4), *b = place_end(1, 4 * 4); a[0] = L'a'; a[1] = 0; b[0] = L'a'; b[1] = 0x110000 + 5; b[2] = 0; LIBCALL(r = _wcsnatcmp_s_chk(a, 4, b, 4, 1, &res, 16, 16)); return r != EOK; }
 static int s_wcsicmp_bad2(void) { D = NULL; DMAXB = 0; int res = 0; errno_t r; wchar_t *a = place_end(0, 4 * 4), *b = place_end(1, 4 * 4); a[0] = L'a'; a[1] = 0; b[0] = L'a'; b[1] = 0x110000 + 5; b[2] = 0; LIBCALL(r = _wcsicmp_s_chk(a, 4, b, 4, &res, 16, 16)); return r != EOK; }
 
 static const oscn SC[] = {
@@ -67,6 +69,7 @@ static const oscn SC[] = {
     {"wcsnorm_s(130 chars)", "scratch len+2>=128", s_norm_big}, {"wcsnorm_s(NFD, 20 marks)", "reorder growth", s_norm_marks_d}, {"wcsnorm_s(NFC, 28 marks)", "reorder+compose growth", s_norm_marks_c},
     {"wcsnorm_s(no space)", "error exit after growth", s_norm_nospc}, {"wcsicmp_s", "two fold buffers", s_wcsicmp}, {"wcsicmp_s(fold error)", "fold buffers, error exit", s_wcsicmp_bad},
     {"wcsicmp_s(fold error in src)", "both fold buffers live at the error exit", s_wcsicmp_bad2},
+    {"wcsnatcmp_s(fold_case)", "two fold buffers", s_wcsnatcmp}, {"wcsnatcmp_s(fold error in src)", "both fold buffers live at the error exit", s_wcsnatcmp_bad2},
 };
 #define NSC ((int)(sizeof SC / sizeof SC[0]))
 enum { K_RUNS, K_ALLOCS, K_FAILPOS, K_SITES, K_DEATH, K_NUM };
